@@ -1214,9 +1214,9 @@ def replay(ctx, path):
         print("replay file names a broken obligation/correspondence, no concrete input:", r["what"])
         return 1
     bad = 0
-    runs = 1 if c["k"] == "seq" else 20  # concurrent cases: the schedule is not part of the input
+    runs = 1 if c["k"] in ("seq", "copy") else 20  # concurrent cases: the schedule is not part of the input
     for _ in range(runs):
-        ok, outs, _, log = common.run_go_cases(ctx, GO, [c], tag="replay")
+        ok, outs, _, log = common.run_go_cases(ctx, GO_COPY if c["k"] == "copy" else GO, [c], tag="replay")
         if not outs or not outs[0].get("ok"):
             bad += 1
             print(json.dumps(outs, indent=1)[:4000])
